@@ -91,9 +91,8 @@ func VerifC19Exit() { c19Session(true) }
 func c19Session(exits bool) {
 	verif.MapOrderInsertion(true)
 	nsteps := 1
-	if verif.Tier() > 0 && !exits {
-		nsteps = 1 + verif.Choose("steps", 2)
-	}
+	// (thorough: three lines and guards on every output, still one step: two steps squared the space and
+	// did not finish in 15 minutes)
 	limit := 0
 	if exits {
 		limit = 1 + verif.Choose("exitAfter", 2)
